@@ -489,8 +489,23 @@ class C12(Prop):
             for _ in range(2 if ctx.tier == "quick" else 3):
                 ops += [["stress", g, m, rng.randrange(1, 1 << 30), mx], ["reset"]]
             cases.append(Case("stress%d" % k, "allocstress", [init], ops))
-        cases.append(Case("mixed0", "allocstress", [64], [["mixed", 1500 if ctx.tier == "quick" else 6000, 16]]))
+        mixed = Case("mixed0", "allocstress", [64], [["mixed", 1500 if ctx.tier == "quick" else 20000, 16]])
         out = []
+        # the mixed-size rounds run without the race detector (their oracle is the overlap / stamp check; under -race
+        # one round costs 0.4 s)
+        cfm = os.path.join(core.BUILD, "cases_C12_mixed.txt")
+        ofm = os.path.join(core.BUILD, "impl_C12_mixed.out")
+        core.write_cases([mixed], cfm)
+        if os.path.exists(ofm):
+            os.remove(ofm)
+        rcm, logm = core.run_harness("z", cfm, ofm, race=False, timeout=1500)
+        ilm = core.parse_output(ofm).get(mixed.id, [])
+        flm = self.oracle(mixed, ilm)
+        if rcm != 0 and not flm:
+            flm = ["harness exit %d" % rcm]
+        ctx.notes.append("mixed-size rounds: %s" % (ilm[0] if ilm else "no output"))
+        if flm:
+            return [(flm[0], replay_body(self, mixed, "concurrent run fails the property oracle: " + flm[0], ilm, extra=logm[-1500:]))]
         race = ctx.tier == "thorough" and os.path.exists(os.path.join(core.BUILD, "z_race.test"))
         cf = os.path.join(core.BUILD, "cases_C12_stress.txt")
         of = os.path.join(core.BUILD, "impl_C12_stress.out")
